@@ -10,6 +10,7 @@ A scenario is plain data:
   stream   None | seconds between meter frames pushed into the protocol while a connection is up
   close    None | {"iter": k, "pos": p}        close() spliced into iteration k's ready queue at p
   jump     None | {"iter": k, "sec": s}        wall clock jumps by s seconds (C17 monitors only)
+  extra    list of {"what": "lose"|"close_again", "iter": k, "pos": p}  further external events spliced like close()
   restart  None | {"gap": s, "run": s}         after the loop returned: connect_loop() again, close again
   horizon  virtual seconds to simulate when nothing ends the run earlier
 """
@@ -113,6 +114,7 @@ class ManagerRig:
         self.stop_reason = None
         self.sessions = 0
         self._auto_closed = False
+        self._extra_done = set()
         self.frozen = False
 
     # -- recording ---------------------------------------------------------------------------
@@ -155,6 +157,8 @@ class ManagerRig:
             rig.in_flight += 1
             try:
                 d = spec.get("d") or 0
+                for _ in range(spec.get("y") or 0):
+                    await asyncio.sleep(0)
                 if spec["o"] == "hang":
                     await rig.loop.create_future()
                 if d > 0:
@@ -227,11 +231,35 @@ class ManagerRig:
         if c is not None and not self._auto_closed and loop.iteration >= c["iter"] and self.loop_running:
             self._auto_closed = True
             self._splice_close(c.get("pos", 0))
+        for n, e in enumerate(self.sc.get("extra") or ()):
+            if n not in self._extra_done and loop.iteration >= e["iter"]:
+                self._extra_done.add(n)
+                where = loop.ready_len if e.get("pos", 0) == -1 else e.get("pos", 0)
+                if e["what"] == "lose":
+                    loop.splice(where, self._do_lose)
+                elif e["what"] == "close_again" and self.close_time is not None:
+                    loop.splice(where, self._do_close_again)
         j = self.sc.get("jump")
         if j is not None and not getattr(self, "_jumped", False) and loop.iteration >= j["iter"]:
             self._jumped = True
             self.clock.offset += j["sec"]
             self.record("wall_clock_jump", sec=j["sec"])
+
+    def _do_lose(self) -> None:
+        """External fault: the line of the currently established connection goes away now."""
+        live = [self.transports[c] for c in sorted(self.live_set) if self.transports[c].returned]
+        if live:
+            self.record("loss_injected", conn=live[0].conn_id)
+            live[0].lose()
+        else:
+            self.record("loss_injection_noop")
+
+    def _do_close_again(self) -> None:
+        self.record("close_called_again")
+        try:
+            self.mgr.close()
+        except Exception as ex:  # noqa: BLE001 - H4
+            self.violate("H4", f"second-close-raised {type(ex).__name__}", repr(ex))
 
     def _splice_close(self, pos) -> None:
         n = self.loop.ready_len
